@@ -7,6 +7,7 @@ import Matreex.Lemmas.Matrix
 import Matreex.Lemmas.Except
 import Matreex.Lemmas.Elementwise
 import Matreex.Gen.ElementwiseForms
+import Matreex.Gen.EnsureForms
 
 namespace Matreex.C12
 open Matreex
@@ -179,6 +180,16 @@ theorem operators_complete :
        ("Sub", true, true), ("Sub", true, false), ("Sub", false, true), ("Sub", false, false),
        ("SubAssign", true, true), ("SubAssign", true, false)] := by
   decide
+
+/-- the conformability guards (re-read from src/arithmetic.rs on every run) are exactly "the
+predicate, else the documented error": `ShapeNotConformable` for both operand-shape guards (the
+decision itself is the regenerated `Gen.Matrix.is_*_conformable`, see `conformable_iff` and
+`C11.multiply_not_conformable`), `SquareMatrixRequired` for `ensure_square` -/
+theorem ensure_forms_correct : Gen.ensureForms =
+    [("ensure_square", "is_square()", "SquareMatrixRequired"),
+     ("ensure_elementwise_operation_conformable", "is_elementwise_operation_conformable(rhs)", "ShapeNotConformable"),
+     ("ensure_multiplication_like_operation_conformable", "is_multiplication_like_operation_conformable(rhs)", "ShapeNotConformable")] ∧
+    Gen.isSquareBody = "{ let shape = self.shape(); shape.nrows() == shape.ncols() }" := by decide
 
 /-! ### non-vacuity -/
 
